@@ -1,0 +1,45 @@
+//go:build verif
+
+package fsstore
+
+// Contracts for govc (see /verif/DESIGN.md §5 C17, C18). Comment-only;
+// compiled only under the build tag "verif". The filesystem is a ghost state
+// described in /verif/contracts/external/fs.spec; every os.* call site below
+// must satisfy the permitted-step precondition of the call.
+
+//@ pure func escOf(f Func, k string) string
+
+//@ functype Store.escapingFunc(key) (r)
+//@   assigns nothing
+//@   ensures os.pathsafe(r) && r == escOf(recv, key)
+
+//@ functype Store.shardingFunc(key, shards)
+//@   requires shards != nil
+//@   requires os.pathsafe(key)
+//@   assigns *shards, cells(*shards)
+//@   ensures len(*shards) >= old(len(*shards)) + 1 && (*shards)[len(*shards)-1] == key
+//@   ensures forall i mathint :: 0 <= i && i < old(len(*shards)) ==> (*shards)[i] == old((*shards)[i])
+//@   ensures forall i mathint :: old(len(*shards)) <= i && i < len(*shards) ==> os.pathsafe((*shards)[i])
+
+//@ func (*Store).pathForKey(key) (r)
+//@   requires store != nil && store.shardingFunc != nil && store.escapingFunc != nil
+//@   assigns nothing
+//@   ensures[C17] os.under(r, store.basepath) && !os.instaging(r)
+//@   ensures[C17] os.lastcomp(r) == escOf(store.escapingFunc, key)
+
+//@ func (*Store).PutStream(ctx) (w, commit, err)
+//@   requires store != nil && ctx != nil
+//@   loop 0 assigns ghostall("string.owned"), ghostall("string.closed")
+
+//@ func (*Store).PutStream$1(key) (err)
+//@   requires f != nil && f.path == stagepath && stagepath.owned && os.instaging(stagepath)
+//@   requires store != nil && store.shardingFunc != nil && store.escapingFunc != nil
+
+//@ func move(stagepath, destpath) (err)
+//@   requires stagepath.owned && stagepath.closed && os.instaging(stagepath) && !os.instaging(destpath)
+//@   assigns stagepath.owned
+
+//@ func haveDir(pth) (err)
+//@   assigns nothing
+
+//@ func CheckAndMakeBasepath(basepath) (err)
